@@ -369,8 +369,15 @@ def funnels(F):
     for fn in F.functions.values():
         if any(c.get("name") == "utap_parse" for c in calls(fn.get("body"))) and fn["q"] != "utap_parse":
             out.append(fn)
+    if len(out) < 1:
+        raise AnalysisBroken("no function calls utap_parse()")
     if len(out) < 2:
-        raise AnalysisBroken("fewer than two functions call utap_parse(): %s" % [f["q"] for f in out])
+        # one shared body behind both entry points (`parse_buffer`): fine as long as both still reach it
+        reach = {g["name"] for g in F.functions.values() if g.get("body") is not None and
+                 any(c.get("fn") == out[0]["q"] or c.get("name") == out[0]["name"] for c in calls(g["body"]))}
+        if not {"parse_XTA", "parseProperty"} <= reach:
+            raise AnalysisBroken("utap_parse() is called by %s only, which parse_XTA / parseProperty do not both reach" %
+                                 out[0]["q"])
     return sorted(out, key=lambda f: (f["q"], len(f["params"])))
 
 
@@ -380,11 +387,20 @@ def written_before_parse(MW, fn):
     if body.get("k") != "block":
         return set()
     out = set()
-    for s in body["s"]:
+    stmts = list(body["s"])
+    i = 0
+    while i < len(stmts):
+        s = stmts[i]
+        if s.get("k") == "try" and any(c.get("name") == "utap_parse" for c in calls(s.get("body") or {})):
+            # `try { <set-up>; utap_parse(); } catch (...) { <settle>; throw; }`: the set-up runs as if it stood outside
+            inner = (s.get("body") or {}).get("s", [])
+            stmts = stmts[:i] + list(inner) + stmts[i + 1:]
+            continue
         if any(c.get("name") == "utap_parse" for c in calls(s)):
             # writes in the same statement before the call are not counted (conservative)
             return out
         out |= MW.stmt(s, 0, fn)
+        i += 1
     return out
 
 
